@@ -21,6 +21,11 @@ const (
 	TypeInterval
 )
 
+// typeInvalid is what the text readers report for an item whose type name is
+// not one of the ten TTLV types. It is distinct from 0 (end of data) and from
+// every valid type, so that callers reject the item with an error.
+const typeInvalid Type = 0xFF
+
 func (ty Type) String() string {
 	if n, ok := typesName[ty]; ok {
 		return n
